@@ -27,6 +27,7 @@ RULE = ('C13\'s generated datasets plus datasets produced by the REAL Merger fro
         'map. non-trivial = distinct exports of merged datasets, or with distance ties, or with spikeless ids.')
 RULE += ' Round 5 (shared build): 50000 / 100000 spikes with features; positions offset by 2**24.'
 RULE += " Round 6: where the files determine a curated cluster's waveform uniquely, the export is judged against that (not against the model's own cluster waveforms)."
+RULE += ' Round 8: spikes whose first-PC features are all <= 0 (depth NaN by the formula); templates alternating between two clusters in time.'
 EXHAUSTIVE = {'quick': False, 'thorough': False}
 FLOORS = {'quick': {'evaluations': 750, 'distinct_nontrivial': 400},
           'thorough': {'evaluations': 11000, 'distinct_nontrivial': 5000}}
